@@ -42,13 +42,15 @@ def cast (e : ExtType) (v : PVal) : Except Err (Option PVal) :=
 /-! ## `_trial_to_external_values` -/
 
 /-- an entry of `parameter_configs`: `(parent_name, pc)`; the child's
-`matching_parent_values` is the one-element list holding its subspace key -/
+`matching_parent_values` is the one-element list holding its subspace key.  `pv` is used
+by the variant `parentByName = false` only: the stored value of the parent. -/
 structure QE where
   parent : Option (String × PVal)
+  pv : Option PVal
   pc : PC
 
 /-- `(pc.name, child) for child in pc.child_parameter_configs` -/
-def childEntries (p : PC) : List QE := p.kids.map fun kc => ⟨some (p.name, kc.1), kc.2⟩
+def childEntries (p : PC) (v : Option PVal) : List QE := p.kids.map fun kc => ⟨some (p.name, kc.1), v, kc.2⟩
 
 structure LoopSt where
   remaining : Assign                        -- remaining_parameters
@@ -57,37 +59,60 @@ structure LoopSt where
 
 def eraseKey (a : Assign) (n : String) : Assign := a.filter fun e => e.1 != n
 
-/-- the parent test of one entry against `parameter_values` -/
+/-- the parent test of one entry against `parameter_values` (code as written) -/
 def parentOK (pvals : Assign) : Option (String × PVal) → Bool
   | none => true
   | some (pn, k) => match lookup pvals pn with
     | none => false                         -- `parent_name not in parameter_values`
     | some pv => pyEq pv k                  -- `parent_value in pc.matching_parent_values`
 
-/-- the `while parameter_configs and remaining_parameters` loop; `fuel` bounds the
+/-- one accepted parameter: record the raw and the external value, drop it from `remaining` -/
+def takeParam (st : LoopSt) (name : String) (v : PVal) (x : Option PVal) : LoopSt :=
+  { remaining := eraseKey st.remaining name, pvals := st.pvals ++ [(name, v)], ext := st.ext ++ [(name, x)] }
+
+/-- the `while parameter_configs and remaining_parameters` loop as written; `fuel` bounds the
 iterations (one per config of the tree: `sizeSpace` of the space is enough) -/
-def extLoop : Nat → List QE → LoopSt → Except Err LoopSt
+def extLoopByName : Nat → List QE → LoopSt → Except Err LoopSt
   | 0, _, st => .ok st
   | _ + 1, [], st => .ok st
   | n + 1, e :: q, st =>
     if st.remaining.isEmpty then .ok st else
-    let q' := q ++ childEntries e.pc
+    let q' := q ++ childEntries e.pc none     -- children are enqueued before any test
     match lookup st.remaining e.pc.name with
-    | none => extLoop n q' st
+    | none => extLoopByName n q' st
     | some v =>
       if parentOK st.pvals e.parent then
         match cast e.pc.h.ext v with
         | .error err => .error err
-        | .ok x => extLoop n q'
-            { remaining := eraseKey st.remaining e.pc.name,
-              pvals := st.pvals ++ [(e.pc.name, v)],
-              ext := st.ext ++ [(e.pc.name, x)] }
-      else extLoop n q' st
+        | .ok x => extLoopByName n q' (takeParam st e.pc.name v x)
+      else extLoopByName n q' st
 
-def rootEntries (ss : List PC) : List QE := ss.map fun p => ⟨none, p⟩
+/-- the variant that carries the parent's value with each child entry and enqueues the
+children of accepted parameters only (`fixes/c17-parent-by-value.diff`) -/
+def extLoopById : Nat → List QE → LoopSt → Except Err LoopSt
+  | 0, _, st => .ok st
+  | _ + 1, [], st => .ok st
+  | n + 1, e :: q, st =>
+    if st.remaining.isEmpty then .ok st else
+    match lookup st.remaining e.pc.name with
+    | none => extLoopById n q st
+    | some v =>
+      let ok := match e.parent, e.pv with
+        | none, _ => true
+        | some (_, k), some pv => pyEq pv k
+        | some _, none => false
+      if ok then
+        match cast e.pc.h.ext v with
+        | .error err => .error err
+        | .ok x => extLoopById n (q ++ childEntries e.pc (some v)) (takeParam st e.pc.name v x)
+      else extLoopById n q st
 
-def trialToExternalValues (ss : List PC) (t : Assign) : Except Err (List (String × Option PVal)) :=
-  match extLoop (sizeSpace ss) (rootEntries ss) ⟨t, [], []⟩ with
+def rootEntries (ss : List PC) : List QE := ss.map fun p => ⟨none, none, p⟩
+
+def trialToExternalValues (cfg : Cfg) (ss : List PC) (t : Assign) : Except Err (List (String × Option PVal)) :=
+  let r := if cfg.parentByName then extLoopByName (sizeSpace ss) (rootEntries ss) ⟨t, [], []⟩
+           else extLoopById (sizeSpace ss) (rootEntries ss) ⟨t, [], []⟩
+  match r with
   | .error e => .error e
   | .ok st => .ok st.ext
 
@@ -155,13 +180,13 @@ def group (ext : List (String × Option PVal)) : List (String × Presented) :=
   mergeMulti multi fin
 
 /-- `_pytrial_parameters` -/
-def pytrialParameters (ss : List PC) (t : Assign) : Except Err (List (String × Presented)) :=
-  match trialToExternalValues ss t with
+def pytrialParameters (cfg : Cfg) (ss : List PC) (t : Assign) : Except Err (List (String × Presented)) :=
+  match trialToExternalValues cfg ss t with
   | .error e => .error e
   | .ok ext => if ext.length != t.length then .error .value else .ok (group ext)
 
 /-- `trial_parameters(proto)`: the trial comes off the wire -/
-def trialParameters (ss : List PC) (t : Assign) : Except Err (List (String × Presented)) :=
-  pytrialParameters ss (wireTrial t)
+def trialParameters (cfg : Cfg) (ss : List PC) (t : Assign) : Except Err (List (String × Presented)) :=
+  pytrialParameters cfg ss (wireTrial t)
 
 end VizierModel.Space
